@@ -213,7 +213,7 @@ pub fn run(ctx: &mut Ctx) {
             }
         },
     );
-    let big: Vec<u32> = ctx.q(vec![], vec![65534, 65535, 65536, 65537, 70000]);
+    let big: Vec<u32> = ctx.q(vec![65534, 65535, 65536], vec![65534, 65535, 65536, 65537, 70000, 131072]);
     if !big.is_empty() {
         ctx.enumerate::<Many>(
             "many_zip64",
